@@ -39,6 +39,8 @@ type crudFunc struct {
 }
 
 var (
+	customPhRe  = regexp.MustCompile(`\$(\d+)`)
+	customVarRe = regexp.MustCompile(`\$[A-Za-z_]\w*\$`)
 	wsRe      = regexp.MustCompile(`\s+`)
 	selectRe  = regexp.MustCompile(`^SELECT (.*?) FROM (\w+)(?: WHERE (.*))?$`)
 	insertRe  = regexp.MustCompile(`^INSERT INTO (\w+) \( ?(.*?) ?\) VALUES \( ?(.*?) ?\)(?: RETURNING (.*?))? ?;?$`)
@@ -313,6 +315,25 @@ func runC05(r *rep.Report, thorough bool) error {
 				f := &funcs[i]
 				if strings.HasPrefix(f.Name, "Query") || model[f.Name] == nil && !strings.Contains(f.SQL, " FROM ") && !strings.Contains(f.SQL, "INSERT") {
 					r.Hist("custom-query-or-helper")
+					// custom queries: the placeholders are $1..$n for the n arguments, no $name$ is left
+					if strings.HasPrefix(f.Name, "Query") {
+						seenPh := map[int]bool{}
+						maxPh := 0
+						for _, m := range customPhRe.FindAllStringSubmatch(f.SQL, -1) {
+							k, _ := strconv.Atoi(m[1])
+							seenPh[k] = true
+							if k > maxPh {
+								maxPh = k
+							}
+						}
+						in2 := map[string]any{"case": a.Case.ID, "target": tg, "func": f.Name, "sql": wsRe.ReplaceAllString(f.SQL, " "), "nargs": f.NArgs, "sources": a.Case.Sources()}
+						r.Case(map[string]any{"case": a.Case.ID, "func": f.Name, "sql": wsRe.ReplaceAllString(f.SQL, " ")}, true)
+						if customVarRe.MatchString(f.SQL) {
+							r.Fail(rep.Failure{Signature: "c05:custom-query-variable-left", What: "a $name$ variable is left in the statement of a custom query", Input: in2})
+						} else if maxPh != f.NArgs || len(seenPh) != f.NArgs {
+							r.Fail(rep.Failure{Signature: "c05:placeholders-vs-arguments", What: "custom query: placeholders are not $1..$n for the n arguments passed", Input: in2})
+						}
+					}
 					continue
 				}
 				st, err := parseSQL(f.SQL)
